@@ -325,6 +325,151 @@ func arByTool(r *core.Rand) ([]byte, []string) {
 	return b, law
 }
 
+// ---- sources given as runs ("L<hex>" literal bytes, "Z<n>" n zero bytes) ---------------
+
+type sparseRun struct {
+	off  int64
+	data []byte // nil = zeros
+	n    int64
+}
+
+type sparseSource struct {
+	runs []sparseRun
+	size int64
+}
+
+func parseSegs(s string) *sparseSource {
+	src := &sparseSource{}
+	for _, t := range strings.Split(s, ",") {
+		var r sparseRun
+		r.off = src.size
+		if strings.HasPrefix(t, "L") {
+			r.data = []byte(core.MustUnHex(t[1:]))
+			r.n = int64(len(r.data))
+		} else {
+			r.n, _ = strconv.ParseInt(t[1:], 10, 64)
+		}
+		src.runs = append(src.runs, r)
+		src.size += r.n
+	}
+	return src
+}
+
+func (s *sparseSource) ReadAt(p []byte, off int64) (int, error) {
+	if off < 0 {
+		return 0, fmt.Errorf("negative offset")
+	}
+	n := 0
+	for _, r := range s.runs {
+		if n == len(p) {
+			break
+		}
+		pos := off + int64(n)
+		if pos >= r.off+r.n || pos < r.off {
+			continue
+		}
+		k := int64(len(p) - n)
+		if rem := r.off + r.n - pos; rem < k {
+			k = rem
+		}
+		if r.data == nil {
+			for i := int64(0); i < k; i++ {
+				p[n+int(i)] = 0
+			}
+		} else {
+			copy(p[n:n+int(k)], r.data[pos-r.off:])
+		}
+		n += int(k)
+	}
+	if n < len(p) {
+		return n, io.EOF
+	}
+	return n, nil
+}
+
+// iterateSparse is iterateAr for a source that cannot be read in full: per member the
+// first 16 bytes and the last byte stand in for the content
+func iterateSparse(src *sparseSource) string {
+	a, err := deb.LoadAr(src)
+	if err != nil {
+		return "err-magic"
+	}
+	var xs []string
+	end := "eof"
+	limit := int(src.size/60) + 3
+	for steps := 0; ; steps++ {
+		e, err := a.Next()
+		if err == io.EOF {
+			break
+		}
+		if err != nil {
+			end = "bad"
+			break
+		}
+		if steps > limit || steps > 100000 {
+			end = "hang"
+			break
+		}
+		head := make([]byte, 16)
+		k, _ := io.ReadFull(e.Data, head)
+		last := ""
+		if e.Size > 0 {
+			var b [1]byte
+			if n, _ := e.Data.ReadAt(b[:], e.Size-1); n == 1 {
+				last = core.Hex(string(b[:]))
+			}
+		}
+		xs = append(xs, fmt.Sprintf("%s:%d:%d:%d:%s:%d:%s/%s", core.Hex(e.Name), e.Timestamp, e.OwnerID, e.GroupID, core.Hex(e.FileMode), e.Size, core.Hex(string(head[:k])), last))
+	}
+	return "[" + strings.Join(xs, ";") + "] end=" + end + " steps=" + strconv.Itoa(len(xs))
+}
+
+func init() {
+	arImpl["arsparse"] = func(a []string) string { return iterateSparse(parseSegs(a[0])) }
+	arImpl["arsspec"] = arImpl["arsparse"]
+}
+
+// streamArLarge: members whose size needs the whole ten-digit column (and every digit count
+// below it), followed by small members: the offsets after them must be right
+func streamArLarge(g *core.G) {
+	r := g.R
+	sizes := []int64{999999999, 1000000000, 1000000001, 2147483647, 2147483648, 4294967295, 4294967296, 9999999998, 9999999999, 123456789, 99999, 100000}
+	for i := g.N(60, 2500); i > 0; i-- {
+		ms := genArMembers(r)
+		if len(ms) == 0 {
+			ms = append(ms, arMember{Name: "x", Mode: "644"})
+		}
+		args := []string{strconv.Itoa(len(ms))}
+		bigAt := r.Intn(len(ms))
+		for j, m := range ms {
+			extra := int64(0)
+			if j == bigAt || r.Chance(1, 6) {
+				extra = sizes[r.Intn(len(sizes))] - int64(len(m.Data))
+				if r.Chance(1, 4) {
+					extra = int64(r.Intn(2000000000))
+				}
+				if extra < 0 {
+					extra = 0
+				}
+			}
+			args = append(args, core.Hex(m.Name), b01(m.Slash), optNum(m.TS), optNum(m.UID), optNum(m.GID), core.Hex(m.Mode), core.Hex(string(m.Data)), strconv.FormatInt(extra, 10))
+		}
+		cnt := len(ms)
+		g.EmitGen(func(out string) []string {
+			f := strings.Fields(out)
+			if len(f) != 3 || f[2] != "1" {
+				return nil
+			}
+			ops := []string{"arsspec " + f[0] + " " + f[1] + " " + strconv.Itoa(cnt)}
+			// the same source cut short inside the last member / with a stray byte: model vs implementation
+			if k := strings.LastIndex(f[0], ","); k > 0 {
+				ops = append(ops, "arsparse "+f[0][:k], "arsparse "+f[0]+",L00")
+			}
+			return ops
+		}, "arsgen", args...)
+	}
+}
+
 func init() {
 	// law: an archive written by the system's ar reads back as its files
 	arImpl["law-arfiles"] = func(a []string) string {
